@@ -299,6 +299,16 @@ class Built:
     pass
 
 
+def _drop_former(w, top):
+    """the former branch could not be completed (the outside task carries the id of a member): take the half-built branch out
+    again, so that the WBS holds exactly the tasks the case lists"""
+    try:
+        if top.wbs is not None:
+            w.remove(top)
+    except RuntimeError:
+        pass
+
+
 def build(case, budget=None, log_queries=False):
     """returns Built with .wbs, .tasks (by index), .externals, .resources (list of probes), .shared"""
     b = Built()
@@ -345,6 +355,7 @@ def build(case, budget=None, log_queries=False):
                 exts.append(x)
                 continue
             except RuntimeError:
+                _drop_former(w, top)
                 x = Task(e['id'], f"ext{e['id']}", start=e['start'], end=e['end'], estimate=e.get('estimate'))
         if e.get('via_removed_branch') and e.get('succ') and not e.get('kid'):
             try:
@@ -359,6 +370,7 @@ def build(case, budget=None, log_queries=False):
                 exts.append(x)
                 continue
             except RuntimeError:
+                _drop_former(w, top)
                 x = Task(e['id'], f"ext{e['id']}", start=e['start'], end=e['end'], estimate=e.get('estimate'), milestone=bool(e.get('milestone')))
         if e.get('in_other_wbs'):
             if b.other_wbs is None:
